@@ -570,6 +570,16 @@ def seq_contains(I, pipe, x):
     if isinstance(x, int) or isinstance(x, z3.ArithRef):
         F = z3.Function(f'in({pipe.src.name}~{cid})', z3.IntSort(), z3.BoolSort())
         return F(zint(x))
+    from .values import SObj
+    if isinstance(x, SObj):
+        # an object: `e == x` for some element e, with the class's own __eq__ (evaluated per element) or identity
+        def same(e):
+            if e is x:
+                return True
+            if isinstance(e, SObj) and e.cls.find_method('__eq__') is not None:
+                return I.truth(I.equals(e, x))
+            return False
+        return I.pipes.observable(pipe.with_stage('filter', _pointwise(I, same)), 'ne')
     raise Unsupported('membership of a non-scalar in a symbolic sequence')
 
 
